@@ -79,9 +79,9 @@ def run(tier, seed):
     # library global, e.g. around calls into libc functions with hidden static state
     plan = [(2, 0, 2, "full"), (2, 1, 2, "full"), (3, 0, 1, "full"), (2, 2, 2, "access"), (3, 2, 1, "access"), (2, 0, 3, "access"),
             (2, 1, 3, "access"), (3, 1, 2, "access")] if tier == "quick" else \
-           [(2, 0, 2, "full"), (2, 1, 2, "full"), (3, 0, 2, "full"), (3, 1, 2, "full"), (2, 0, 3, "coarse"), (2, 1, 3, "coarse"),
-            (4, 0, 1, "full"), (2, 2, 2, "full"), (2, 0, 4, "access"), (2, 1, 4, "access"), (2, 2, 4, "access"), (3, 0, 3, "access"),
-            (3, 1, 3, "access"), (3, 2, 3, "access"), (4, 0, 2, "access"), (4, 2, 2, "access")]
+           [(2, 0, 2, "full"), (2, 1, 2, "full"), (2, 2, 2, "full"), (3, 0, 2, "full"), (3, 1, 2, "full"), (4, 0, 1, "full"),
+            (2, 0, 4, "access"), (2, 1, 4, "access"), (2, 2, 3, "access"), (3, 0, 3, "access"), (3, 1, 3, "access"),
+            (3, 2, 2, "access"), (4, 0, 2, "access"), (4, 2, 1, "access"), (2, 0, 3, "coarse"), (2, 2, 4, "access")]
     for n, variant, k, g in plan:
         if rep.expired():
             rep.cut_short("threads=%d variant=%d k=%d not run" % (n, variant, k))
